@@ -46,7 +46,10 @@ struct Case {
 }
 
 fn gen_case(r: &mut Rng, port: u16) -> (Case, String) {
-    let pq = match r.below(15) {
+    let pq = match r.below(18) {
+        15 => "/Announce/aBcD".to_string(),
+        16 => "/announce?PassKey=Zm9vQmFy&UID=7".to_string(),
+        17 => "/TR/Announce.PHP?Key=MiXeD".to_string(),
         9 => "/tr/announce/".to_string(),
         10 => "/announce/?k=v".to_string(),
         11 => "/announce?compact".to_string(),
